@@ -289,14 +289,34 @@ def gen_merge_histories(rnd, count):
             yield Case(content, dict(kw), 'merge-history')
 
 
+def gen_minimal(rnd):
+    """the shortest contents of every version / level / mode, with zero digits and zero bytes (leading 0x00 codewords)"""
+    for v in ALL_VERSIONS:
+        for e in levels_of(v):
+            kw = dict(version=vname(v), mask=rnd.randrange(4))
+            if e is not None:
+                kw['error'] = LEVEL_NAME[e]
+            for c in ('0', '00', '000', '7', '0000001', 1 if v > -3 else 0):
+                yield Case(c, dict(kw), 'minimal')
+            if 2 in modes_of(v):
+                yield Case('0A', dict(kw), 'minimal')
+                yield Case('A', dict(kw), 'minimal')
+            if 4 in modes_of(v):
+                yield Case(b'\x00', dict(kw), 'minimal')
+                yield Case(b'\x00\x00\x00', dict(kw, mode='byte'), 'minimal')
+                yield Case(b'a', dict(kw), 'minimal')
+
+
 def gen_encoding_histories(rnd):
     """call histories around the text -> bytes policy: the same text with an explicit encoding (several spellings), then without,
     then with a requested mode — every call must be judged on its own (nothing may be remembered between calls)"""
     for t in ['漢字', '点茗', '茗荷', 'ｱｲｳ', 'テスト', 'äöü', 'Märchen', 'abc', 'ABC 123', '書読', '€uro', 'Ωmega', '123']:
-        encs = ['utf-8', 'shift_jis', 'iso-8859-1', 'utf8', 'UTF-8', 'latin1', 'cp932', 'utf-16-be']
+        encs = ['utf-8', 'shift_jis', 'iso-8859-1', 'utf8', 'UTF-8', 'latin1', 'cp932', 'utf-16-be', 'utf-16', 'utf-32', 'utf-8-sig',
+                'iso2022_jp', 'utf-16', 'utf-8-sig']
         rnd.shuffle(encs)
-        for enc in encs[:4]:
+        for enc in encs[:6]:
             yield Case(t, dict(encoding=enc), 'encoding-history')
+            yield Case(t + t, dict(encoding=enc), 'encoding-history')     # the same codec again (stateful encoders: BOM, escapes)
             yield Case(t, {}, 'encoding-history')
             yield Case(t, dict(mode=rnd.choice(['kanji', 'byte'])), 'encoding-history')
             yield Case(t.encode(enc, 'replace'), {}, 'encoding-history')
@@ -545,8 +565,8 @@ def _matrix_snap(q):
 
 def _scheduled_child(args_list, seed, nthreads=4, p=0.2, call=_make_call, snap=_matrix_snap):
     """runs in a forked child: a DETERMINISTIC scheduler instead of the operating system's — only one thread runs at a time, and
-    at function starts and calls (Python and C functions) made by segno's code (`sys.monitoring` events PY_START / CALL; a call
-    site inside a loop is a switch point only the first few times per group) the running thread hands over, with probability p,
+    at function starts, calls (Python and C functions) and line starts in segno's code (`sys.monitoring` events PY_START / CALL /
+    LINE; a location inside a loop is a switch point only the first few times per group) the running thread hands over, with probability p,
     to a thread chosen by a PRNG seeded with `seed`.  The calls are processed in groups of `nthreads` consecutive calls (one per
     thread, all threads of a group joined before the next group starts); all symbols are held until the end.  The same seed
     reproduces the same interleaving."""
@@ -583,9 +603,25 @@ def _scheduled_child(args_list, seed, nthreads=4, p=0.2, call=_make_call, snap=_
         if c >= state['limit']:
             return mon.DISABLE
         return None
+    def on_line(code, line):
+        # line granularity as well (two stores of one memo need no call between them), with half the probability
+        if not code.co_filename.startswith(segdir):
+            return mon.DISABLE
+        k = getattr(local, 'k', None)
+        if k is None:
+            return None
+        key = (code, 'line', line)
+        c = state['seen'].get(key, 0) + 1
+        state['seen'][key] = c
+        if rnd.random() < p / 2:
+            hand_over(k)
+        if c >= state['limit']:
+            return mon.DISABLE
+        return None
     mon.register_callback(tid, mon.events.PY_START, on_event)
     mon.register_callback(tid, mon.events.CALL, on_event)
-    mon.set_events(tid, mon.events.PY_START | mon.events.CALL)
+    mon.register_callback(tid, mon.events.LINE, on_line)
+    mon.set_events(tid, mon.events.PY_START | mon.events.CALL | mon.events.LINE)
     try:
         for g0 in range(0, len(args_list), nthreads):
             idx = list(range(g0, min(g0 + nthreads, len(args_list))))
@@ -655,14 +691,21 @@ def same_size_groups(rnd):
             groups.append(Case(c, kw, 'same-size-group' if auto else 'same-size-group-mask'))
     # the SAME contents of different modes in several threads at once, again and again (a memo of the last content / mode / bytes
     # that is written in two steps hands one content the other's analysis)
-    for _ in range(12):
-        pool = [content_for(rnd, m, rnd.randint(2, 9)) for m in rnd.sample([1, 2, 4, 8], 2)]
+    for g in range(48):
+        if g % 3 == 2:
+            pool = [content_for(rnd, m, rnd.randint(2, 9)) for m in rnd.sample([1, 2, 4, 8], 2)]
+            kw = dict(mask=rnd.randrange(4), micro=False, error=rnd.choice('LMQH'))
+        else:
+            # one content that fills the requested version at the requested level, one that is boosted to the top level
+            v, m = rnd.randint(1, 5), rnd.choice([1, 2, 4])
+            e = rnd.choice([1, 0, 3])
+            pool = [content_for(rnd, m, max_chars(v, e, m)), content_for(rnd, m, rnd.randint(1, 4))]
+            kw = dict(mask=rnd.randrange(4), version=v, error=LEVEL_NAME[e])
         if isinstance(pool[1], bytes) and rnd.random() < 0.5:
             try:
                 pool[1] = pool[1].decode('shift_jis')
             except UnicodeDecodeError:
                 pass
-        kw = dict(mask=rnd.randrange(4), micro=False, error=rnd.choice('LMQH'))
         for i in range(8):
             groups.append(Case(pool[(i + (i // 4)) % 2], dict(kw), 'repeated-content-group'))
     return groups
